@@ -4,10 +4,12 @@
 import warnings
 from collections import OrderedDict
 
+from jaqalpaq.error import nesting_guard
 from .algorithm import fill_in_let, expand_macros, expand_subcircuits
 from .algorithm.walkers import *
 
 
+@nesting_guard
 def parse_jaqal_output_list(circuit, output):
     """Parse experimental output into an :class:`ExecutionResult` providing collated and
     uncollated access to the output.
